@@ -71,7 +71,7 @@ TAGS = {
     'SD_Pre': set(), 'SD_Only': {'C12'}, 'SD_StoredDigest': {'C12'},
     'RC_Pre': set(), 'RC_Effect': set(), 'RC_Frame': {'C10', 'C12'},
     'RR_Pre': {'C10'}, 'RR_Value': {'C10'}, 'RR_Effect': set(), 'RR_Frame': {'C10'}, 'RR_NEffOracle': {'C02'},
-    'OB_Frame': {'C11'}, 'OB_Digest': {'C11'},
+    'OB_Frame': {'C11'}, 'OB_Digest': {'C11'}, 'OB_Occupation': set(),
     'PO_Rows': {'C03', 'C12'}, 'PO_Triples': {'C03'}, 'PO_Points': {'C03'},
     'RS_Frame': {'C05'}, 'RS_Digest': {'C05'}, 'RST_LosesEvaluations': {'C05'}, 'RST_Effect': set(),
     'NoSuchAction': set(),
